@@ -19,7 +19,7 @@
 (* commit/merge; EmitInv prints complete behaviours for the replayer.       *)
 EXTENDS IndexSegments, TLC, Json
 
-CONSTANTS MaxCommits, MaxOps, MaxParents, MaxPerTx, AllowHide, Bug
+CONSTANTS MaxCommits, MaxOps, MaxParents, MaxPerTx, AllowHide, Shape, Bug
 
 VARIABLES pseq, chg, ops, tx, frozen, hist
 vars == <<pseq, chg, ops, tx, frozen, hist>>
@@ -46,12 +46,15 @@ Init ==
 
 TxBegin(b) ==
   /\ ~tx.open /\ Len(ops) < MaxOps /\ Len(pseq) < MaxCommits
-  /\ frozen => b = Len(ops)
+  /\ (frozen \/ Shape = "chain") => b = Len(ops)
   /\ tx' = [open |-> TRUE, base |-> b, segs |-> ops[b].segs \o << <<>> >>, nnew |-> 0, nadd |-> 0]
   /\ hist' = Append(hist, [a |-> "begin", base |-> b])
   /\ UNCHANGED <<pseq, chg, ops, frozen>>
 
+(* Shape = "chain": every commit sits on the newest known one (tiny state   *)
+(* space, so that histories long enough for partial squashes are reached)  *)
 ParentChoices(K) ==
+  IF Shape = "chain" THEN {<<Max(K)>>} ELSE
   {<<0>>} \cup {SortedSeq(S) : S \in {T \in SUBSET (K \ {0}) : T # {} /\ Cardinality(T) <= MaxParents}}
 
 TxNew(ps, ch) ==
@@ -123,7 +126,8 @@ Next ==
   /\ \/ \E b \in 1..Len(ops) : TxBegin(b)
      \/ /\ tx.open
         /\ \E ps \in ParentChoices(IdsOf(tx.segs)) :
-             \E ch \in {Len(pseq) + 1} \cup {chg[p] : p \in (SeqToSet(ps) \ {0})} : TxNew(ps, ch)
+             \E ch \in {Len(pseq) + 1} \cup (IF Shape = "chain" THEN {} ELSE {chg[p] : p \in (SeqToSet(ps) \ {0})}) :
+                TxNew(ps, ch)
      \/ \E c \in 1..Len(pseq) : TxAddHead(c)
      \/ \E c \in 1..Len(pseq) : TxHide(c)
      \/ TxCommit
@@ -147,6 +151,9 @@ InvMergeComplete ==
 (* the squash rule on sizes alone (used by the judge for long histories) *)
 InvLevelsRule ==
   tx.open => Levels(Save(tx.segs, "ok")) = SaveLevels(Levels(ops[tx.base].segs), Len(tx.segs[Len(tx.segs)]))
+
+(* the memoised oracle used by the judge is the Dag oracle *)
+InvMemo == Done => MemoAgrees(G)
 
 EmitInv == Done => PrintT(<<"REPLAY", ToJson(hist)>>)
 =============================================================================
